@@ -22,6 +22,22 @@
 (* Negative control: UseMemo = TRUE, MemoClearedBy = {"set", "del"} (a     *)
 (* render memo invalidated only by item assignment / deletion) -> TLC      *)
 (* reports RendersCurrent after  render ; order_first ; (any state).       *)
+(* REFUSED calls and calls that fail in an object the CALLER supplies are   *)
+(* ordinary steps of a history (hardening round 6, notes/SIZE_STRESS.md     *)
+(* part 5): RefusedSet (item assignment / setdefault / update / merge_fields *)
+(* with a value Deb822 must refuse: ends in a newline, has an empty line,   *)
+(* has a continuation line without leading white space), Absent (del / pop  *)
+(* of a name the paragraph does not have, popitem of an empty paragraph),   *)
+(* SortKeyFault (sort_fields(key=f): f raises for the first / a middle /    *)
+(* the last name, or returns incomparable keys), DumpFault (dump(fd): the   *)
+(* k-th write of fd raises).  The edge carries the outcome (res: "ok", the  *)
+(* documented exception, or "caller" = the caller's own exception) and the  *)
+(* paragraph is UNCHANGED (error atomicity): a field the paragraph lists     *)
+(* has a value (Complete), so every rendering after the failed call is      *)
+(* still the rendering of the fields it had.                                *)
+(* Negative control: RefusedLeaksKey = TRUE (the name is registered before  *)
+(* the value is validated: a refused assignment to a name the paragraph     *)
+(* does not have leaves a name without value behind) -> RendersCurrent.     *)
 (* The closed LTS (EDGE lines) is replayed into the real classes; the      *)
 (* harness renders through every dump variant after every step.            *)
 (***************************************************************************)
@@ -29,7 +45,8 @@ EXTENDS Deb822Reader
 
 CONSTANTS EKeys,           \* names (ranks)
           UseMemo,         \* design: FALSE
-          MemoClearedBy    \* set of mutator families that invalidate the memo (negative control)
+          MemoClearedBy,   \* set of mutator families that invalidate the memo (negative control)
+          RefusedLeaksKey  \* design: FALSE (negative control: a refused assignment registers the name)
 
 VARIABLES obj, memo
 evars == <<obj, memo>>
@@ -57,13 +74,30 @@ RECURSIVE ESortFrom(_, _, _)
 ESortFrom(o, i, asc) == IF i > Len(o) THEN <<>> ELSE EInsertSorted(ESortFrom(o, i + 1, asc), o[i], asc)
 ESort(o, asc) == ESortFrom(o, 1, asc)
 
+\* a field the paragraph lists has a value (v = <<>>: a name without value -- only the negative control makes one)
+Complete(o) == \A i \in 1..Len(o) : o[i].v # <<>>
+\* refused / failing calls: outcome and (unchanged) paragraph
+BadKinds  == {"nl_end", "blank_line", "no_indent"}
+SetHows   == {"set", "setdefault", "update", "merge"}
+AbsHows   == {"del", "pop", "pop_default"}
+FaultPos  == {"first", "middle", "last"}
+\* does d.<how>(name k, refused value) get as far as storing?  setdefault of a name that is there returns its value
+EReaches(o, k, how)    == how # "setdefault" \/ ~EHas(o, k)
+ERefusedRes(o, k, how) == IF EReaches(o, k, how) THEN "ValueError" ELSE "ok"
+ERefused(o, k, how)    == IF RefusedLeaksKey /\ EReaches(o, k, how) /\ ~EHas(o, k) THEN Append(o, [k |-> k, v |-> <<>>]) ELSE o
+EAbsentRes(how)        == IF how = "pop_default" THEN "ok" ELSE "KeyError"
+\* the caller's key function is called once per name, the caller's write() at least once for a non-empty paragraph
+ECallerRes(o)          == IF o = <<>> THEN "ok" ELSE "caller"
+EIncomparableRes(o)    == IF Len(o) < 2 THEN "ok" ELSE "TypeError"
+
 Rendered  == IF obj = <<>> THEN <<>> ELSE Dump(<<obj>>)
 Current   == IF obj = <<>> THEN <<>> ELSE <<obj>>
 \* what each way of rendering returns
 Rendering(kind) == IF UseMemo /\ kind \in {"dump", "str", "bytes"} /\ memo.valid THEN memo.lines ELSE Rendered
 Kinds == {"dump", "str", "bytes", "fd_text", "fd_binary"}
 
-EEdge(op, args) == Emit => PrintT(<<"EDGE", ToJson([from |-> obj, op |-> op, args |-> args, res |-> 0, to |-> obj'])>>)
+EEdgeR(op, args, res) == Emit => PrintT(<<"EDGE", ToJson([from |-> obj, op |-> op, args |-> args, res |-> res, to |-> obj'])>>)
+EEdge(op, args) == EEdgeR(op, args, "ok")
 Clear(fam) == memo' = IF fam \in MemoClearedBy THEN [valid |-> FALSE, lines |-> <<>>] ELSE memo
 
 EInit == rd = RInit(FALSE) /\ doc = <<>>
@@ -92,6 +126,16 @@ Render(kind)     == /\ kind \in {"dump", "str", "bytes"}
                     /\ memo' = IF UseMemo /\ ~memo.valid THEN [valid |-> TRUE, lines |-> Rendered] ELSE memo
                     /\ EEdge("render", <<kind>>)
 
+\* refused and failing calls (memo untouched: nothing was edited)
+RefusedSet(k, b, how) == /\ how = "merge" => ~EHas(obj, k)
+                         /\ obj' = ERefused(obj, k, how) /\ memo' = memo
+                         /\ EEdgeR("refused_set", <<k, b, how>>, ERefusedRes(obj, k, how))
+Absent(k, how)        == ~EHas(obj, k) /\ obj' = obj /\ memo' = memo /\ EEdgeR("absent", <<k, how>>, EAbsentRes(how))
+PopItemEmpty          == obj = <<>> /\ obj' = obj /\ memo' = memo /\ EEdgeR("popitem_empty", <<>>, "KeyError")
+SortKeyFault(pos)     == obj' = obj /\ memo' = memo /\ EEdgeR("sort_key_fault", <<pos>>, ECallerRes(obj))
+SortKeyIncomparable   == obj' = obj /\ memo' = memo /\ EEdgeR("sort_key_incomparable", <<>>, EIncomparableRes(obj))
+DumpFault(pos, mode)  == obj' = obj /\ memo' = memo /\ EEdgeR("dump_fault", <<pos, mode>>, ECallerRes(obj))
+
 ENext == /\ UNCHANGED vars
          /\ \/ \E k \in EKeys : \/ \E a \in Alts : SetItem(k, a) \/ SetDefault(k, a) \/ MergeAbsent(k, a)
                                 \/ \E a, b \in Alts : Update(k, a, b)
@@ -99,9 +143,14 @@ ENext == /\ UNCHANGED vars
                                 \/ \E r \in EKeys : OrderBefore(k, r) \/ OrderAfter(k, r)
             \/ PopItem \/ ClearAll \/ SortFields \/ SortFieldsKey
             \/ \E kind \in {"dump", "str", "bytes"} : Render(kind)
+            \/ \E k \in EKeys : \/ \E b \in BadKinds, how \in SetHows : RefusedSet(k, b, how)
+                                \/ \E how \in AbsHows : Absent(k, how)
+            \/ PopItemEmpty \/ SortKeyIncomparable
+            \/ \E pos \in FaultPos : SortKeyFault(pos) \/ \E mode \in {"binary", "text"} : DumpFault(pos, mode)
 ESpec == EInit /\ [][ENext]_<<vars, evars>>
 
-RendersCurrent == /\ \A kind \in Kinds : Parse(Rendering(kind)) = Current
+RendersCurrent == /\ Complete(obj)
+                  /\ \A kind \in Kinds : Parse(Rendering(kind)) = Current
                   /\ \A k1, k2 \in Kinds : Rendering(k1) = Rendering(k2)
 NamesUnique    == \A i, j \in 1..Len(obj) : obj[i].k = obj[j].k => i = j
 =============================================================================
